@@ -810,6 +810,13 @@ fn check_radar(sc: &K16, p: &Parsed, reference: &[RefLine], disconnect_exit: boo
             totals.insert(*k, *total);
         }
     }
+    // vacuity guard: if the client drew many frames after connecting but not one of them shows a
+    // tab bar the parser recognises, the screen format changed and nothing could be judged; that is
+    // a harness error (exit 2), never a silent pass
+    let connected_frames = p.vt.frames.iter().filter(|f| f.rows.len() >= 6).count();
+    if connected_frames >= 40 && p.vt.frames.iter().all(|f| tab_bar_count(f).is_none()) && p.log.iter().any(|l| matches!(l, LogEv::Connect { what, .. } if what.starts_with("accept"))) {
+        simcore::harness_error("C16: no drawn frame shows a tab bar of the form 'Map .. Coverage .. Airplanes(N)': the screen parser does not recognise this UI, nothing can be judged");
+    }
     let mut j_prev = 0usize;
     let mut frames_with_table = 0;
     let mut last_j: Option<usize> = None;
